@@ -48,7 +48,7 @@ HintedOf(U, n) == IF ~U.pkg[n].exists THEN {}
 
 GRP0 == [id |-> 0, kind |-> "", sol |-> <<>>, msg |-> "", calls |-> <<>>, profile |-> ""]
 BB0 == [callseq |-> <<>>, dcalls |-> {}, ccalls |-> {}, dret |-> {}, cret |-> {}, kreqs |-> {}, knames |-> {},
-        cancelSeen |-> FALSE, cancelVal |-> 0, prevSolves |-> 0, callsThisSolve |-> 0]
+        cancelSeen |-> FALSE, cancelVal |-> 0, prevSolves |-> 0, callsThisSolve |-> 0, returned |-> FALSE]
 WB0 == [cls |-> <<>>, nlearnt |-> 0, trail |-> <<>>, lv |-> <<>>, why |-> <<>>, base |-> 0, unsat |-> 0, nrestart |-> 0, softlearnt |-> 0, inst |-> {}, A |-> {}, vsolv |-> <<>>, vhelp |-> <<>>, on |-> FALSE]
 
 Init == /\ l = 1
@@ -74,12 +74,14 @@ Begin ==
         /\ bb' = [base EXCEPT !.kreqs = base.kreqs \cup Range(r.p.reqs),
                               !.knames = base.knames \cup Mentioned(r.u, r.p, 0),
                               !.cancelSeen = FALSE, !.cancelVal = 0, !.callsThisSolve = 0,
-                              !.callseq = <<>>]
+                              !.callseq = <<>>, !.returned = FALSE]
         /\ wb' = [WB0 EXCEPT !.on = r.cfg.whitebox]
 
 Poll ==
   /\ E("poll") /\ UNCHANGED <<ctx, wb, grp>>
-  /\ bb' = IF Rec[l].fired /\ ~bb.cancelSeen
+  \* (a poll after solve has returned - the `verdict` event - is the renderer's business,
+  \* not a point where the solver polls)
+  /\ bb' = IF Rec[l].fired /\ ~bb.cancelSeen /\ ~bb.returned
            THEN [bb EXCEPT !.cancelSeen = TRUE, !.cancelVal = Rec[l].k] ELSE bb
 
 (***************************************************************************)
@@ -134,8 +136,12 @@ Quiescent ==
   /\ Chk("C11", bb.cancelSeen \/ bb.knames \subseteq bb.ccalls, "C11_NotIssued", bb.knames \ bb.ccalls)
   /\ (IF Len(Rec[l].pending) >= 2 THEN Cover(<<"quiescent2">>) ELSE TRUE)
 
+\* solve has returned (Unsolvable); what follows is conflict rendering
+Verdict == /\ E("verdict") /\ UNCHANGED <<ctx, wb, grp>>
+           /\ bb' = [bb EXCEPT !.returned = TRUE]
+
 Skip == /\ l <= Len(Rec)
-        /\ Rec[l].ev \in {"blockon", "blockdone", "complete", "skipped", "verdict", "end"}
+        /\ Rec[l].ev \in {"blockon", "blockdone", "complete", "skipped", "end"}
         /\ l' = l + 1 /\ UNCHANGED <<ctx, bb, wb, grp>>
 
 (***************************************************************************)
@@ -600,7 +606,7 @@ Result ==
        [] r.kind = "crash" -> Fail("C04_Crash", <<r.phase>>)
        [] OTHER -> Fail("T_UnknownResult", r.kind)
 
-Next == \/ Begin \/ Poll \/ Call \/ Ret \/ CacheQuery \/ Quiescent \/ Skip
+Next == \/ Begin \/ Poll \/ Verdict \/ Call \/ Ret \/ CacheQuery \/ Quiescent \/ Skip
         \/ RunSat \/ Restart \/ Var \/ ClauseEv \/ Assign \/ Undo \/ Learnt \/ UnsatIds \/ Result
 
 Spec == Init /\ [][Next]_vars
